@@ -12,18 +12,18 @@ import (
 
 // C10Case is one cell of the guard table.
 type C10Case struct {
-	PatchPkg  string   `json:"patch_pkg"`  // "", "a", "b" (file is package a)
-	PkgLine   string   `json:"pkg_line"`   // "ctx" | "minus" (package clause on a context line or as -/+ pair)
-	PatchImps []string `json:"patch_imps"` // per guarded path: absent|unnamed|named|metavar|dot|blank
-	FileImps  []string `json:"file_imps"`  // per guarded path: absent|unnamed|same|other|dot|blank
-	Layout    string   `json:"layout"`     // alone|group|blocks
-	ImpLine   string   `json:"imp_line"`   // ctx|minus
-	Body      string   `json:"body"`       // expr|stmt|decl
-	MetaClash string   `json:"meta_clash"` // "", identifier, expression: a metavariable named like the patch's package clause is declared (and unused)
+	PatchPkg  string   `json:"patch_pkg"`          // "", "a", "b" (file is package a)
+	PkgLine   string   `json:"pkg_line"`           // "ctx" | "minus" (package clause on a context line or as -/+ pair)
+	PatchImps []string `json:"patch_imps"`         // per guarded path: absent|unnamed|named|metavar|dot|blank
+	FileImps  []string `json:"file_imps"`          // per guarded path: absent|unnamed|same|other|dot|blank
+	Layout    string   `json:"layout"`             // alone|group|blocks
+	ImpLine   string   `json:"imp_line"`           // ctx|minus
+	Body      string   `json:"body"`               // expr|stmt|decl
+	MetaClash string   `json:"meta_clash"`         // "", identifier, expression: a metavariable named like the patch's package clause is declared (and unused)
 	Spelling  string   `json:"spelling,omitempty"` // how the file spells the guarded paths: "" (interpreted string) | raw | escaped
 	CLI       bool     `json:"cli,omitempty"`      // run through the command line (in place) instead of the library API
 	Seq       string   `json:"seq,omitempty"`      // two-change cases: what the earlier change does to the guarded clause
-	Name0     string   `json:"name0"`      // literal name used for path 0 on the patch side (different from / equal to the path's base name)
+	Name0     string   `json:"name0"`              // literal name used for path 0 on the patch side (different from / equal to the path's base name)
 	Patch     string   `json:"patch"`
 	File      string   `json:"file"`
 	Expect    bool     `json:"expect_applies"`
@@ -174,7 +174,7 @@ func c10SeqCases(emit func(any)) {
 	}
 	type sc struct {
 		id, pre, guard, file string
-		expect             bool
+		expect               bool
 	}
 	renamePkg := "@@\n@@\n-package a\n+package b\n\n-prefoo(1)\n+predone(1)\n"
 	addImp := "@@\n@@\n+import \"x/y\"\n\n-prefoo(1)\n+y.Pre(1)\n"
